@@ -45,10 +45,10 @@ def bounds(tier, prop='C12'):
 _ENUM = {}
 
 
-def all_skeletons(nodes, with_return):
+def all_skeletons(nodes, with_return, with_for=False):
     """every program (top-level block) with 1..nodes statements in total, each exactly once.
     statement = leaf | return | if body | if body else body | while body;  body = braced block of >= 0 statements | one bare statement"""
-    key = (nodes, with_return)
+    key = (nodes, with_return, with_for)
     if key in _ENUM: return _ENUM[key]
     from functools import lru_cache
     leaves = [('leaf', False)] + ([('leaf', True)] if with_return else [])
@@ -58,7 +58,9 @@ def all_skeletons(nodes, with_return):
         out = []
         if m == 1: out += [('leaf', r) for _, r in leaves]
         if m >= 1:
-            for b in bodies(m - 1): out.append(('if', b)); out.append(('while', b))
+            for b in bodies(m - 1):
+                out.append(('if', b)); out.append(('while', b))
+                if with_for: out.append(('for', b))
             for k in range(m):
                 for b1 in bodies(k):
                     for b2 in bodies(m - 1 - k): out.append(('ifelse', b1, b2))
@@ -91,14 +93,68 @@ def number(sk, counter):
     if k == 'leaf': counter[0] += 1; return ('leaf', counter[0], sk[1])
     if k == 'block': return ('block', [number(s, counter) for s in sk[1]])
     if k == 'bare': return number(sk[1], counter)
+    if k == 'for':
+        # the parser's expansion (ast_shortcuts::for_into_while): { init; while (cond) { body; step } }
+        counter[0] += 1; i_init = counter[0]
+        counter[0] += 1; i_while = counter[0]
+        body = number(sk[1], counter)
+        counter[0] += 1; i_step = counter[0]
+        return ('block', [('leaf', i_init, False), ('while', i_while, ('block', [body, ('leaf', i_step, False)]))])
     counter[0] += 1; i = counter[0]
     if k == 'ifelse': return ('ifelse', i, number(sk[1], counter), number(sk[2], counter))
     return (k, i, number(sk[1], counter))
 
 
+_FAMS = {}
+
+
+def _levels(s):
+    """(writable, S2, S1, NB) of an un-numbered statement per the statement levels of lang.lalrpop: `while`/`for` bodies are
+    Statement2 (no bare `if`), the if-case of an if-else is Statement1 (no dangling else), blocks hold any statement"""
+    k = s[0]
+    if k == 'leaf': return (True, True, True, False)
+    def body(b):
+        if b[0] == 'block':
+            return (all(_levels(x)[0] for x in b[1]), True, True, False)
+        return _levels(b[1])
+    if k == 'for':          # written as its expansion { init; while (c) { body; step } }: the body stands in a block
+        w = body(s[1])[0]
+        return (w, w, w, False)
+    if k == 'while':
+        w, s2, s1, nb = body(s[1])
+        return (w and s2, w and s2, w and s2, False)
+    if k == 'if':
+        w, s2, s1, nb = body(s[1])
+        ok_ = w and (s1 or nb)
+        return (ok_, False, False, ok_)
+    if k == 'ifelse':
+        w1, a2, a1, anb = body(s[1]); w2, b2, b1, bnb = body(s[2])
+        is_s1 = w1 and w2 and a1 and b1
+        is_nb = w1 and w2 and a1 and bnb
+        return (is_s1 or is_nb, False, is_s1, is_nb)
+    raise KeyError(k)
+
+
+def writable(sk):
+    return all(_levels(x)[0] for x in sk[1])
+
+
+def skeleton_family(nodes, with_return):
+    """all skeletons with <= nodes statements; `for` statements (counted as one statement) up to 4 statements"""
+    key = (nodes, with_return)
+    if key not in _FAMS:
+        fnodes = nodes if with_return else nodes - 1       # C12: one statement less for the programs with `for`
+        fam = [s for s in all_skeletons(min(fnodes, 4), with_return, True) if writable(s)]
+        if nodes > fnodes or nodes > 4:
+            have = set(fam)
+            fam += [s for s in all_skeletons(nodes, with_return, False) if s not in have and writable(s)]
+        _FAMS[key] = fam
+    return _FAMS[key]
+
+
 def tasks(tier, prop='C12'):
     b = bounds(tier, prop)
-    n = len(all_skeletons(b['nodes'], prop == 'C13'))
+    n = len(skeleton_family(b['nodes'], prop == 'C13'))
     chunk = max(1, (n + 63) // 64)
     return [{'lo': i, 'hi': min(n, i + chunk), 'prop': prop} for i in range(0, n, chunk)]
 
@@ -253,7 +309,7 @@ def run_task(task):
     K = 6 if tier == 'quick' else 8
     dvars = [z3.Bool('d%d' % i) for i in range(K)]
 
-    skels = all_skeletons(b['nodes'], prop == 'C13')
+    skels = skeleton_family(b['nodes'], prop == 'C13')
     shape = z3.Int('shape')
     h.inputs['shape'] = shape
 
@@ -359,7 +415,7 @@ def native_graph(sk):
 def confirm(sk, prop, decisions):
     """replay on the real parser + lifter: the same checker on the natively produced graph"""
     g, raw, src = native_graph(sk)
-    if g is None: return True, raw, 'a control-flow graph'
+    if g is None: return (None if raw.startswith('PARSEERR') else True), raw, 'a control-flow graph'
     rec = Recorder()
     if prop == 'C12':
         check_c12(rec, sk, g)
@@ -381,7 +437,7 @@ def main(tier, replay=None, prop='C12'):
         print('replay on the real lifter: observed=%s expected=%s -> %s' % (got, exp, 'VIOLATION' if bad else 'holds')); return 1 if bad else 0
     # translator validation: a few fixed programs through the real parser + lifter and the same checker
     for idx in (0, 5, 17, 101, 400, 700):
-        sks = all_skeletons(3, prop == 'C13')
+        sks = skeleton_family(3, prop == 'C13')
         sk = number(sks[idx % len(sks)], [0])
         bad, got, exp = confirm(sk, prop, [True, False, True, True, False, False]); rep.validated += 1
         if bad: rep.inconclusive.append('fixed program %s: native graph fails the checker: %s' % (source_of(sk).text, got))
@@ -396,10 +452,12 @@ def main(tier, replay=None, prop='C12'):
             role = {'function': 'control_flow_graph::lifting', 'kind': v['kind'], 'class': 'any'}
             key = json.dumps(role, sort_keys=True)
             if key in seen: continue
-            sk = number(all_skeletons(bounds(tier, prop)['nodes'], prop == 'C13')[v['model'].get('shape', 0)], [0])
+            sk = number(skeleton_family(bounds(tier, prop)['nodes'], prop == 'C13')[v['model'].get('shape', 0)], [0])
             decisions = [bool(v['model'].get('d%d' % i)) for i in range(8)]
             bad, got, exp = confirm(sk, prop, decisions); rep.validated += 1
             src = source_of(sk).text
+            if bad is None:
+                rep.inconclusive.append('a skeleton of the family is not accepted by the real parser (the family filter `writable` is out of date): %s' % src[:300]); continue
             if not bad:
                 rep.nonrepro.append({'violation': v, 'circom': src, 'observed': str(got)[:300]}); continue
             seen[key] = 1
@@ -413,7 +471,7 @@ def main(tier, replay=None, prop='C12'):
         rep.inconclusive.append('%d counterexamples did not reproduce on the natively built graph, e.g. %s' % (len(rep.nonrepro), json.dumps(rep.nonrepro[0], default=str)[:400]))
     if NAT: NAT.close()
     pr = prog(); b = bounds(tier, prop)
-    rep.bounds = {'skeletons': 'every program with at most %d statements in total (%d shapes): statement = leaf%s | if | if-else | while; bodies = braced block of any number of statements (also empty) or a bare statement; any nesting' % (b['nodes'], len(all_skeletons(b['nodes'], prop == 'C13')), ' | return' if prop == 'C13' else ''),
+    rep.bounds = {'skeletons': 'every program with at most %d statements in total (%d shapes): statement = leaf%s | if | if-else | while | for (as the expansion of the parser: {init; while (c) {body; step}}; in programs of <= 4 statements, for C12 one statement less than the bound); bodies = braced block of any number of statements (also empty) or a bare statement where the grammar allows one; any nesting' % (b['nodes'], len(skeleton_family(b['nodes'], prop == 'C13')), ' | return' if prop == 'C13' else ''),
                   'decisions (C13)': '<= %d branch/loop decisions per run' % (6 if tier == 'quick' else 8)}
     rep.stubs = ['TryLift of ast::Meta / ast::Expression / leaf ast::Statement (tokens that remember the AST node)', 'LiftingEnvironment (unused: no declarations in the skeleton)', 'log macros disabled']
     rep.assumptions = ['HashSet<usize> modelled as an insertion-ordered set', 'source hash ' + pr.hashes['structure']]
